@@ -21,6 +21,15 @@ fn main() {
     if std::env::var("VERIF_DEBUG_TARGETS").is_ok() { debug_targets(); return; }
     craft::self_check();
     let props = props::all();
+    if args.len() >= 3 && args[1] == "--minimise" {
+        // debugging aid: run the schedule-minimisation stage on a replay file and print the result
+        let doc: serde_json::Value = serde_json::from_str(&std::fs::read_to_string(&args[2]).unwrap()).unwrap();
+        let prop = props.iter().find(|p| p.id == doc["property"].as_str().unwrap()).unwrap();
+        let s = prop.scenarios.iter().find(|s| s.name() == doc["scenario"].as_str().unwrap()).unwrap();
+        let r = minimise_schedule(s.as_ref(), &doc["params"], doc["violation"]["class"].as_str().unwrap(), 30.0);
+        println!("{}", r.map(|v| v["sim"]["replay_tasks"].to_string()).unwrap_or("None".into()));
+        return;
+    }
     if args.len() >= 3 && args[1] == "--replay" {
         std::process::exit(replay_main(&props, &args[2]));
     }
